@@ -54,6 +54,25 @@ class Obligation:
         return s.to_smt2()
 
 
+def uf_axiom_instances(terms):
+    """defining axioms of the uninterpreted sqrt, instantiated for every sqrt(t) application occurring in the obligation
+    (terms are renamed / substituted after creation, so the instances recorded at creation time may not match)"""
+    out, seen, stack = [], set(), [t for t in terms if z3.is_expr(t)]
+    while stack:
+        t = stack.pop()
+        if t.get_id() in seen:
+            continue
+        seen.add(t.get_id())
+        if z3.is_quantifier(t):
+            continue
+        if z3.is_app(t):
+            if t.decl().name() == "sqrt" and t.num_args() == 1:
+                a = t.arg(0)
+                out.append(z3.Implies(a >= 0, z3.And(t >= 0, t * t == a)))
+            stack.extend(t.children())
+    return out
+
+
 def model_to_dict(m):
     out = {}
     for d in m.decls():
@@ -124,6 +143,7 @@ class Check:
     def add(self, name, hyps, goal, function, encoding="qf-arith", clause=None, replay=None, lemmas=None, kind="post"):
         if self.only and self.only not in name:
             return None
+        hyps = list(hyps) + uf_axiom_instances([goal] + list(hyps))
         o = Obligation(name, hyps, goal, function, encoding, clause, replay, lemmas, "unsat", kind)
         self.obligations.append(o)
         return o
